@@ -389,7 +389,9 @@ func runEnumFast(t *testing.T, col *stats.Collector, prop, test string, cases fu
 		res := runC06(c)
 		if res.Msg != "" {
 			if msg := handle(col, prop, test, c, res); msg != "" {
-				fmt.Printf("VIOLATION property=%s replay=%s\n", prop, replayPath(prop, test))
+				if !strings.HasPrefix(msg, "HARNESS-ERROR") {
+					fmt.Printf("VIOLATION property=%s replay=%s\n", prop, replayPath(prop, test))
+				}
 				t.Errorf("%s", msg)
 				return false
 			}
